@@ -148,6 +148,23 @@ Section NoCrash.
                    | apply with_deep_no_crash; [assumption|]; intros; first [apply of_opt_no_crash | apply replace_at_no_crash; assumption]
                    | apply replace_at_no_crash; assumption ].
 
+  Lemma found_some : forall {A} (r : local A), r <> LCrash -> found r <> None.
+  Proof. intros A r H. destruct r; cbn; try discriminate. contradiction. Qed.
+  Lemma found_obj_some : forall r, r <> LCrash -> found_obj r <> None.
+  Proof. intros r H. destruct r; cbn; try discriminate. contradiction. Qed.
+  Lemma obool_some : forall b, b <> None -> obool b <> None.
+  Proof. intros b H. destruct b; cbn; [discriminate|contradiction]. Qed.
+
+  (** no query runs forever *)
+  Lemma query_eval_total : forall s q, Inv s -> query_eval true seq s q <> None.
+  Proof.
+    intros s q I. destruct q; cbn [query_eval]; try discriminate.
+    - apply obool_some. apply found_some. apply with_deep_no_crash; [assumption|]. intros. apply of_opt_no_crash.
+    - apply obool_some. apply found_some. apply with_deep_no_crash; [assumption|]. intros. destruct c; [apply of_opt_no_crash|discriminate].
+    - apply found_obj_some. apply with_deep_no_crash; [assumption|]. intros. apply of_opt_no_crash.
+    - destruct a as [y|]; [|discriminate]. apply obool_some. apply has_ancestor_terminates; [assumption|]. unfold fuel_of. lia.
+  Qed.
+
   (** no call crashes *)
   Theorem no_crash : forall s o, Inv s -> step true seq s o <> Crash.
   Proof.
@@ -173,6 +190,8 @@ Section NoCrash.
     - destruct a; [|discriminate]. destruct b; [|discriminate]. destruct (add_equivalence s n n0). discriminate.
     - destruct a; [|discriminate]. destruct b; [|discriminate]. destruct (add_equivalence s n n0). discriminate.
     - destruct a; [|discriminate]. destruct b; [|discriminate]. destruct (remove_equivalence s n n0). discriminate.
+    - (* Query *) pose proof (query_eval_total s q I) as T.
+      destruct (query_eval true seq s q) as [[b|[x|]| |]|]; try discriminate. contradiction.
   Qed.
 
   (** histories never crash *)
